@@ -1,4 +1,5 @@
 import StepModel.InstMgrHistory
+import StepModel.GenNodeArrayLemmas
 /-!
 # C13 — the instance manager stays consistent under any sequence of operations
 
@@ -303,6 +304,23 @@ theorem C13_byName_first (s : State) (name start : Nat) :
         congr 1; omega
       have := hf _ hm
       simpa using this
+
+/-! ### one level lower: the heap block behind the master array (`GenNodeArray`, `StepModel/GenNodeArray.lean`) -/
+open StepModel.GenNodeArray in
+/-- For ANY sequence of `Append` / `Remove(index)` / `ClearEntries` on a freshly constructed `GenNodeArray`, every pointer
+store and every `memmove` stays inside the allocated block (no step returns the out-of-block result), `_count` never
+exceeds `_bufsize`, the first `_count` slots are non-null and all others null, and the first `_count` slots are exactly
+the list that `List` append / `eraseIdx` / `[]` compute — the list view `InstMgr.lean` works with. -/
+theorem C13_buf_any_history (ops : List BufOp) :
+    ∃ a, runBuf GenNodeArray.init ops = some a ∧ Wf a ∧ view a = ops.foldl stepList [] := by
+  have := run_spec GenNodeArray.init ops wf_init
+  simpa [view_mk, GenNodeArray.init] using this
+
+open StepModel.GenNodeArray in
+/-- growth: `Check` always leaves room for the slot `Append` is about to write, whatever the default size is -/
+theorem C13_buf_append_in_block (a : Arr) (gn : Nat) (h : Wf a) : (insertAtEnd a gn).isSome := by
+  obtain ⟨a', h1, _⟩ := insertAtEnd_spec a gn h
+  rw [h1]; rfl
 
 /-! ### the hypotheses are satisfiable: a concrete non-trivial history -/
 example : let s := run init [.newInst 0 0 1, .append 0 .complete, .newInst 1 1 2, .append 1 .new,
